@@ -374,13 +374,14 @@ def _anim_entry_size_rule(ctx, m2):
     ctx.saw_fn(pr)
     size_expr = next(x["r"] for x in hirq.walk(wr.hir["body"]) if x.get("k") == "assign" and hirq.render(hirq.strip(x["l"])).endswith(".size"))
     plets = {l["pat"]["name"]: l["init"] for l in hirq.find(pr.hir["body"], "let") if l["pat"].get("k") == "bind" and l.get("init") is not None}
+    wlets = {l["pat"]["name"]: l["init"] for l in hirq.find(wr.hir["body"], "let") if l["pat"].get("k") == "bind" and l.get("init") is not None}
     if "bone_count" not in plets:
         ctx.bad(R, "anim|parser-shape", pr.where, "no `bone_count` derivation in AnimSection::parse", "shape changed")
         return
     bad = None
     try:
         for n in range(0, 7):
-            stored = _ival(size_expr, {"__leaf__": (lambda r_, n=n: n if r_.endswith(".len()") else None)}, {})
+            stored = _ival(size_expr, {"__leaf__": (lambda r_, n=n: n if r_.endswith(".len()") else None)}, wlets)
             got = _ival(plets["bone_count"], {"size": stored}, {k_: v_ for k_, v_ in plets.items() if k_ != "bone_count"})
             if got != n and bad is None:
                 bad = (n, stored, got)
